@@ -11,6 +11,7 @@ use dvb_gse_rust::gse_decap::{DecapContext, DecapError, DecapStatus, Decapsulato
 use dvb_gse_rust::label::Label;
 
 pub const FR: usize = 5000;
+pub const BIG: usize = 70000;
 
 fn boxed_zeros(n: usize) -> Box<[u8]> {
     core::mem::ManuallyDrop::into_inner(zeros(n)).into_boxed_slice()
@@ -101,6 +102,19 @@ fn open_context(p: usize, z: usize, fid: u8, total_len: u16, ptype: u16, q: usiz
 #[kani::unwind(8)]
 #[kani::stub(dvb_gse_rust::gse_decap::read_gse_header, crate::dmodels::hdr_intermediate)]
 pub fn intermediate_lattice() {
+    intermediate_body(FR);
+}
+
+/// Same with storage buffers up to 70000 bytes and any 16-bit offset already stored: the
+/// region where the context's 16-bit byte counter could wrap.
+#[kani::proof]
+#[kani::unwind(8)]
+#[kani::stub(dvb_gse_rust::gse_decap::read_gse_header, crate::dmodels::hdr_intermediate)]
+pub fn intermediate_lattice_big_storage() {
+    intermediate_body(BIG);
+}
+
+fn intermediate_body(zmax: usize) {
     let len = any_len(FR);
     let gse_len = any_len(4095);
     kani::assume(gse_len >= 2 && gse_len + 2 <= len);
@@ -115,10 +129,10 @@ pub fn intermediate_lattice() {
     if i < m {
         buf[3 + i] = x;
     }
-    let z = any_len(FR);
-    let p = any_len(FR);
+    let z = any_len(zmax);
+    let p = any_len(if zmax > 65535 { 65535 } else { zmax });
     kani::assume(p <= z);
-    let q = any_len(FR);
+    let q = any_len(zmax);
     let y: u8 = kani::any();
     kani::assume(y != 0);
     let total_len: u16 = kani::any();
@@ -140,7 +154,7 @@ pub fn intermediate_lattice() {
                     if q < p {
                         assert!(b[q] == y, "C03.append_leaves_other_bytes");
                     }
-                    let j = any_len(FR);
+                    let j = any_len(zmax);
                     if j < z && !(q < p && j == q) && !(i < m && j == p + i) {
                         assert!(b[j] == 0, "C03.append_leaves_other_bytes");
                     }
@@ -155,6 +169,7 @@ pub fn intermediate_lattice() {
             assert!(*consumed == gse_len + 2, "C10.rejected_consumes_own_length");
             assert!(d.memory.slots[0].is_none() && count_ptr(&d.memory, sp) == 1, "C08.buffer_in_exactly_one_place");
             kani::cover!(p + m > z, "rejected_oversize");
+            kani::cover!(zmax <= FR || p + m > 65535, "counter_would_wrap");
         }
         _ => assert!(false, "C03.intermediate_yields_fragmented_or_error"),
     }
@@ -168,6 +183,18 @@ pub fn intermediate_lattice() {
 #[kani::unwind(8)]
 #[kani::stub(dvb_gse_rust::gse_decap::read_gse_header, crate::dmodels::hdr_end)]
 pub fn end_lattice() {
+    end_body(FR);
+}
+
+/// Same with storage buffers up to 70000 bytes and any 16-bit offset already stored.
+#[kani::proof]
+#[kani::unwind(8)]
+#[kani::stub(dvb_gse_rust::gse_decap::read_gse_header, crate::dmodels::hdr_end)]
+pub fn end_lattice_big_storage() {
+    end_body(BIG);
+}
+
+fn end_body(zmax: usize) {
     let len = any_len(FR);
     let gse_len = any_len(4095);
     kani::assume(gse_len >= 5 && gse_len + 2 <= len);
@@ -188,10 +215,10 @@ pub fn end_lattice() {
     buf[4 + m] = (trailer >> 16) as u8;
     buf[5 + m] = (trailer >> 8) as u8;
     buf[6 + m] = trailer as u8;
-    let z = any_len(FR);
-    let p = any_len(FR);
+    let z = any_len(zmax);
+    let p = any_len(if zmax > 65535 { 65535 } else { zmax });
     kani::assume(p <= z);
-    let q = any_len(FR);
+    let q = any_len(zmax);
     let y: u8 = kani::any();
     kani::assume(y != 0);
     let total_len: u16 = kani::any();
@@ -223,6 +250,7 @@ pub fn end_lattice() {
             assert!(d.memory.slots[0].is_none() && count_ptr(&d.memory, sp) == 1, "C08.buffer_in_exactly_one_place");
             kani::cover!(fits && len_ok, "rejected_crc");
             kani::cover!(!fits, "rejected_oversize");
+            kani::cover!(zmax <= FR || (fits && p + m + 2 > 65535), "length_beyond_16_bits_rejected");
         }
         _ => assert!(false, "C03.end_yields_completed_or_error"),
     }
